@@ -792,7 +792,7 @@ pub fn aimed(r: &mut Rng) -> Y {
             (s("router-advertisements"), Y::Hash(vec![(s("eth0"), Y::Null)])),
         ]),
         10 => Y::Hash(vec![
-            (s("dns-search"), Y::Arr((0..*r.pick(&[100usize, 126, 127, 128, 170, 171, 255])).map(|i| s(&format!("d{:03}.example.com", i))).collect())),
+            (s("dns-search"), Y::Arr((0..*r.pick(&[100usize, 112, 113, 114, 126, 127, 128, 170, 171, 226, 227, 228, 255])).map(|i| s(&format!("d{:03}.example.com", i))).collect())),
             (s("router-advertisements"), Y::Hash(vec![(s("eth0"), Y::Null)])),
             (s("addresses"), Y::Arr(vec![s("192.0.2.0/24")])),
         ]),
